@@ -65,6 +65,10 @@ func loadEvents(filename string) (map[string]*eventsListType, error) {
 	minCreateTime := uint64(time.Now().Add(-durationMonth).Unix())
 	for username, eventsSlice := range events {
 		eventsList := &eventsListType{}
+		// Events are saved newest first, but are re-added below oldest first.
+		for i, j := 0, len(eventsSlice)-1; i < j; i, j = i+1, j-1 {
+			eventsSlice[i], eventsSlice[j] = eventsSlice[j], eventsSlice[i]
+		}
 		for _, savedEvent := range eventsSlice {
 			if savedEvent.CreateTime < minCreateTime {
 				continue
